@@ -840,7 +840,7 @@ impl Prio3Visitor for ProtoProbe<'_> {
 
 fn part_c_prio3(ctx: &mut Ctx) {
     let mut rng = ctx.rng("c16-c");
-    let n = ctx.budget(640, 8_000) / ctx.nshards as u64;
+    let n = ctx.budget(2_400, 12_000) / ctx.nshards as u64;
     for i in 0..n {
         let kind = Kind::ALL[(i as usize + ctx.shard) % Kind::ALL.len()];
         let p = gen_params(&mut rng, kind, 40);
